@@ -554,6 +554,16 @@ pub fn replay(v: &Value) -> CaseResult {
     if v.get("kind").and_then(|k| k.as_str()) == Some("c15-futures-drop") {
         return futures_drop_repro();
     }
+    if v.get("kind").and_then(|k| k.as_str()) == Some("c15-siblings") {
+        let case = SibCase {
+            cfg: Cfg::from_json(v.get("cfg").unwrap_or(&Value::Null)).unwrap_or(Cfg::Ovl(vec![Cfg::Mem, Cfg::Mem])),
+            mask: v.get("mask").and_then(|x| x.as_u64()).unwrap_or(0) as u16,
+            kind: v.get("op").and_then(|x| x.as_u64()).unwrap_or(0) as u8,
+            in_lower: v.get("in_lower").and_then(|x| x.as_bool()).unwrap_or(false),
+        };
+        let mut st = Stats::default();
+        return with_stdout_silenced(|| test_sib(&case, &mut st, false));
+    }
     if v.get("kind").and_then(|k| k.as_str()) == Some("c15-times") {
         let case = TimesCase {
             cfg: Cfg::from_json(v.get("cfg").unwrap_or(&Value::Null)).unwrap_or(Cfg::Phys),
@@ -612,7 +622,93 @@ pub fn panic_part(ctx: &RunCtx) -> (Stats, Option<Failure>) {
     (stats, failure)
 }
 
-const RULE: &str = "typed C01/C09 histories vec(op,0..=28) on every stack available in both worlds (Mem, Phys, altroot, overlay incl. sub-path layers, nesting<=2, pre-populated layers) executed in lock-step on the sync stack, its async twin, and N further async twins whose leaf filesystems are wrapped in PendFS (every trait future and every read_dir stream item returns Pending 0..3 times per a generated plan; N=3 quick, 8 thorough); per call: same Ok/Err, same error class, equal values (walk results as multisets, async order must be parent-before-child); after every call identical full snapshots; read/seek scripts on async read handles compared call by call with the sync handles; create sessions held open and observed meanwhile; the two portable timestamp setters on physical-backed stacks, in histories and in a directed part with 1..4 setter calls in any order (same outcomes and same (modified, accessed) pair after every call; the async in-memory backend implements no setters); on overlays a second async overlay over the same layers must show the sync tree after every step; append sessions that overlap a second append session / a re-creation / a removal of the same file before they write (same resulting trees); tokio current-thread runtime; PLUS transfers between an overlay and its OWN layers (copy_file / move_file / copy_dir / move_dir from the overlay into its upper layer - manual copy-up -, from its lowest layer into the overlay, into a second overlay instance over the same layers): same outcome, same overlay tree, same layer trees in both worlds; PLUS walk_dir streams (sync, async, async under a Pending plan) over generated trees with a directory removed after k items were pulled: the stream must terminate, yield no entry twice, yield every entry outside the removed directory, name only vanished entries in its error items and report each of them at most once, like the sync iterator; non-trivial = history with >=1 failing call and >=1 walk over >=2 nested directories, under a plan that returned Pending inside a read_dir future and inside a metadata future of that walk";
+const RULE: &str = "typed C01/C09 histories vec(op,0..=28) on every stack available in both worlds (Mem, Phys, altroot, overlay incl. sub-path layers, nesting<=2, pre-populated layers) executed in lock-step on the sync stack, its async twin, and N further async twins whose leaf filesystems are wrapped in PendFS (every trait future and every read_dir stream item returns Pending 0..3 times per a generated plan; N=3 quick, 8 thorough); per call: same Ok/Err, same error class, equal values (walk results as multisets, async order must be parent-before-child); after every call identical full snapshots; read/seek scripts on async read handles compared call by call with the sync handles; create sessions held open and observed meanwhile; the two portable timestamp setters on physical-backed stacks, in histories and in a directed part with 1..4 setter calls in any order (same outcomes and same (modified, accessed) pair after every call; the async in-memory backend implements no setters); on overlays a second async overlay over the same layers must show the sync tree after every step; append sessions that overlap a second append session / a re-creation / a removal of the same file before they write (same resulting trees); tokio current-thread runtime; PLUS one call on a file F (append, create, copy, move, remove, copy_dir of its directory) while entries with look-alike names exist beside it (F.part, F.tmp, F~, .F.swp, … 16 decorations): in both worlds every such sibling keeps its bytes and the trees agree; PLUS transfers between an overlay and its OWN layers (copy_file / move_file / copy_dir / move_dir from the overlay into its upper layer - manual copy-up -, from its lowest layer into the overlay, into a second overlay instance over the same layers): same outcome, same overlay tree, same layer trees in both worlds; PLUS walk_dir streams (sync, async, async under a Pending plan) over generated trees with a directory removed after k items were pulled: the stream must terminate, yield no entry twice, yield every entry outside the removed directory, name only vanished entries in its error items and report each of them at most once, like the sync iterator; non-trivial = history with >=1 failing call and >=1 walk over >=2 nested directories, under a plan that returned Pending inside a read_dir future and inside a metadata future of that walk";
+
+// ---------------------------------------------------------------------------------------------
+// an operation on F must not touch entries whose names merely resemble F (temporaries an
+// implementation might use: F.part, F.tmp, F~, .F.swp, ...)
+// ---------------------------------------------------------------------------------------------
+
+pub const SIBLING_DECOR: [(&str, &str); 16] = [("", ".part"), ("", ".tmp"), ("", "~"), ("", ".bak"), (".", ".swp"), ("", ".lock"), ("", ".new"), ("", ".old"), ("", ".partial"), ("", ".copy"), ("", ".orig"), ("", "_tmp"), ("#", "#"), ("", ".0"), (".", ""), ("", ".download")];
+
+#[derive(Clone, Debug)]
+pub struct SibCase {
+    pub cfg: Cfg,
+    pub mask: u16,
+    pub kind: u8,
+    pub in_lower: bool,
+}
+
+fn sib_strategy() -> impl Strategy<Value = SibCase> {
+    let cfgs = prop_oneof![
+        3 => Just(Cfg::Ovl(vec![Cfg::Mem, Cfg::Mem])),
+        1 => Just(Cfg::Ovl(vec![Cfg::Mem, Cfg::Mem, Cfg::Mem])),
+        1 => Just(Cfg::OvlSub(Box::new(Cfg::Mem), 2)),
+        1 => Just(Cfg::Mem),
+        1 => Just(Cfg::Alt(Box::new(Cfg::Mem), 1)),
+    ];
+    (cfgs, any::<u16>(), 0u8..6, any::<bool>()).prop_map(|(cfg, mask, kind, in_lower)| SibCase { cfg, mask, kind, in_lower })
+}
+
+fn test_sib(case: &SibCase, st: &mut Stats, counting: bool) -> CaseResult {
+    let n = case.cfg.overlay_layers().max(1);
+    let li = if case.in_lower && n >= 2 { n - 1 } else { 0 };
+    let prepop: Prepop = vec![(li, "/d/F".to_string(), Node::File(std::sync::Arc::new(b"content of F".to_vec())))];
+    let sibs: Vec<String> = SIBLING_DECOR.iter().enumerate().filter(|(i, _)| case.mask & (1 << i) != 0).map(|(_, (pre, post))| format!("/d/{}F{}", pre, post)).collect();
+    let names = ["append_file(/d/F)", "create_file(/d/F)", "copy_file(/d/F -> /d/G)", "move_file(/d/F -> /d/G)", "remove_file(/d/F)", "copy_dir(/d -> /e)"];
+    let what = names[case.kind as usize % names.len()];
+    let runtime = rt();
+    let res: Result<(), String> = runtime.block_on(async {
+        use async_std::io::WriteExt;
+        use std::io::Write;
+        let s = build(&case.cfg, &prepop)?;
+        let a = abuild(&case.cfg, &prepop, None).await?;
+        for sib in &sibs {
+            at(&s.root, sib).map_err(|e| e.to_string())?.create_file().map_err(|e| e.to_string())?.write_all(sib.as_bytes()).map_err(|e| e.to_string())?;
+            let mut h = aat(&a.root, sib).map_err(|e| e.to_string())?.create_file().await.map_err(|e| e.to_string())?;
+            h.write_all(sib.as_bytes()).await.map_err(|e| e.to_string())?;
+            h.flush().await.map_err(|e| e.to_string())?;
+            drop(h);
+        }
+        let op = match case.kind % 6 {
+            0 => Op::Append("/d/F".into(), std::sync::Arc::new(b" + more".to_vec())),
+            1 => Op::CreateFile("/d/F".into(), std::sync::Arc::new(b"new".to_vec())),
+            2 => Op::CopyFile("/d/F".into(), "/d/G".into()),
+            3 => Op::MoveFile("/d/F".into(), "/d/G".into()),
+            4 => Op::RemoveFile("/d/F".into()),
+            _ => Op::CopyDir("/d".into(), "/e".into()),
+        };
+        let os = exec(&s.root, &op);
+        let oa = guarded_aexec(&a.root, &op).await;
+        same_outcome(&os, &oa).map_err(|m| format!("{}: {}", what, m))?;
+        let (ts, ta) = (snapshot(&s.root).tree, asnapshot(&a.root).await.tree);
+        for (who, t) in [("sync", &ts), ("async", &ta)] {
+            for sib in &sibs {
+                match t.get(sib) {
+                    Some(Node::File(b)) if b.as_slice() == sib.as_bytes() => {}
+                    other => return Err(format!("{} with the sibling '{}' present: in the {} world that sibling is now {}", what, sib, who, match other { None => "gone".to_string(), Some(Node::Dir) => "a directory".to_string(), Some(Node::File(b)) => format!("a file of {} bytes with other content", b.len()) })),
+                }
+            }
+        }
+        if ts != ta {
+            return Err(format!("{}: async tree differs from sync tree: {:?}", what, diff_trees(&ts, &ta)));
+        }
+        Ok(())
+    });
+    drop(runtime);
+    match res {
+        Err(m) => Err(Failure { message: format!("stack {} | {}", case.cfg.render(), m), replay: json!({"kind": "c15-siblings", "cfg": case.cfg.to_json(), "mask": case.mask, "op": case.kind, "in_lower": case.in_lower}) }),
+        Ok(()) => {
+            if counting {
+                st.label("operations_next_to_lookalike_siblings");
+                if sibs.len() >= 2 {
+                    st.nontrivial.insert(crate::util::fnv_str(&format!("{:?}", case)));
+                }
+            }
+            Ok(())
+        }
+    }
+}
 
 // ---------------------------------------------------------------------------------------------
 // timestamp setters on physical-backed stacks (the only ones that implement them in both worlds)
@@ -814,6 +910,11 @@ pub fn run(ctx: &RunCtx) -> i32 {
         let (s2, f2) = walkrm_part(ctx, ctx.tier.pick(3000, 60_000), false);
         stats.merge(s2);
         failure = f2;
+    }
+    if failure.is_none() {
+        let (s5, f5) = with_stdout_silenced(|| run_sharded(ctx, "siblings", ctx.tier.pick(800, 20_000), sib_strategy, test_sib));
+        stats.merge(s5);
+        failure = f5;
     }
     if failure.is_none() {
         let (s4, f4) = with_stdout_silenced(|| run_sharded(ctx, "times", ctx.tier.pick(160, 3000), times_strategy, test_times));
